@@ -726,6 +726,10 @@ def oracle_prag(c, impl):
         return v
     n = c['nloc']
     names = c['profiles']
+    if impl.get('ref_idx') != list(range(n)):
+        v.append({'class': 'prag-reference-index', 'what': 'matrix index locations map to %s' % impl.get('ref_idx')})
+    if c['custom'] and impl.get('custom_idx') != n * n:
+        v.append({'class': 'prag-custom-index', 'what': 'custom location mapped to %s, expected %d' % (impl.get('custom_idx'), n * n)})
     for q, a in zip(c['qs'], impl['ans']):
         vi, fr, to, t = q
         if fr >= n or to >= n:
@@ -858,8 +862,14 @@ def oracle_sci(c, impl):
 def oracle(c, impl):
     if 'panic' in impl:
         return [{'class': 'panic-' + c['op'], 'what': 'panicked outside a query: ' + impl['panic']}]
-    return {'core': oracle_core, 'prag': oracle_prag, 'simple': oracle_simple, 'approx': oracle_approx,
-            'sci': oracle_sci}[c['op']](c, impl)
+    vs = {'core': oracle_core, 'prag': oracle_prag, 'simple': oracle_simple, 'approx': oracle_approx,
+          'sci': oracle_sci}[c['op']](c, impl)
+    out, seen = [], set()
+    for x in vs:                    # one report per violation class and case
+        if x['class'] not in seen:
+            seen.add(x['class'])
+            out.append(x)
+    return out
 
 
 def nontrivial_key(c, impl):
@@ -898,9 +908,14 @@ def classify(c, impl):
     return labs
 
 
+_SHRINK_BUDGET = [30]
+
+
 def shrink_candidates(c):
-    if c['op'] not in ('core', 'prag'):
+    """drop queries one at a time (only for the first few failing cases of a run: every round re-runs the harness)"""
+    if c['op'] not in ('core', 'prag') or _SHRINK_BUDGET[0] <= 0:
         return
+    _SHRINK_BUDGET[0] -= 1
     qs = c['qs']
     for k in range(len(qs)):
         if len(qs) > 1:
